@@ -231,6 +231,25 @@ def main():
         if c2["DELAY"]["FEED_SHUTOFF_MONTHS"] != want:
             bad("NoCallerMutation:PatchKnownBad:next-country", dict(case=kb, got=c2["DELAY"]["FEED_SHUTOFF_MONTHS"], want=want))
 
+    # ---- 2c. ... and only the listed combinations are rewritten: with one of the listed options changed the requested shut-off stands
+    for kb in tables.get("knownbad", []):
+        for k_other, alt in (("cull", "dont_eat_culled"), ("scenario", "no_resilient_foods")):
+            if k_other not in kb["opts"] or kb["opts"][k_other] == alt:
+                continue
+            rep["dispatch_cases"] += 1
+            opts = copy.deepcopy(BASE_COUNTRY)
+            opts.update(kb["opts"])
+            opts[k_other] = alt
+            try:
+                with contextlib.redirect_stdout(io.StringIO()):
+                    c, t, loader = sr.set_depending_on_option(opts, country_data=rows[kb["cc"]])
+            except BaseException as ex:  # noqa
+                bad("Dispatch:exception:knownbad-near-miss:%s" % kb["cc"], dict(case=kb, changed=k_other, exc=repr(ex)[:120]))
+                continue
+            want = {"continued": opts["NMONTHS"], "short_delayed_shutoff": 2, "long_delayed_shutoff": 3}[kb["opts"]["shutoff"]]
+            if c["DELAY"]["FEED_SHUTOFF_MONTHS"] != want:
+                bad("WritesAsDocumented:PatchKnownBad:near-miss", dict(case=kb, changed=k_other, got=c["DELAY"]["FEED_SHUTOFF_MONTHS"], want=want))
+
     # ---- 3. numeric overrides
     from harness_presets_snapshot import BASE_COUNTRY2
     stock_csv = pd.read_csv("data/no_food_trade/animal_feed_data/FAOSTAT_head_and_slaughter.csv", index_col="iso3")
